@@ -358,7 +358,9 @@ impl Serialize for AnnotationDataSet {
             } else if let Ok(id) = self.temp_id() {
                 state.serialize_field("@id", id.as_str())?;
             }
-            state.serialize_field("keys", &self.keys)?;
+            //removed keys leave an empty slot behind: only the keys that exist are written
+            let keys: Vec<&DataKey> = self.keys.iter().filter_map(|key| key.as_ref()).collect();
+            state.serialize_field("keys", &keys)?;
             let wrappedstore: WrappedStore<AnnotationData, Self> = self.wrap_store(None);
             state.serialize_field("data", &wrappedstore)?;
         }
